@@ -1,7 +1,8 @@
 -------------------------- MODULE OutBoundaryTrace --------------------------
 (***************************************************************************)
 (* Trace validation for OutBoundary.  Per-cycle records                     *)
-(*   [iv, inx, ip, ic, ix          -- unprocessed_stream.valid/next/payload, *)
+(*   [rst                          -- the clock domain's reset in this cycle  *)
+(*    iv, inx, ip, ic, ix          -- unprocessed_stream.valid/next/payload, *)
 (*                                    complete_in, invalid_in               *)
 (*    ov, onx, op, of, ol, oc, ox] -- processed_stream.valid/next/payload,   *)
 (*                                    first, last, complete_out, invalid_out *)
@@ -26,9 +27,9 @@ TNext == /\ status = "ok"
          /\ LET r == Logs[tid][l]
                 i == InOf(r)
                 o == OutOf(r)
-                f == Failing(i, o)
+                f == IF r.rst /\ ~ResetLegal(i) THEN "env_illegal_input" ELSE Failing(i, o)
             IN /\ status' = f
-               /\ IF f = "ok" THEN Step(i, o) ELSE UNCHANGED vars
+               /\ IF f # "ok" THEN UNCHANGED vars ELSE IF r.rst THEN ResetStep(i, o) ELSE Step(i, o)
          /\ l' = l + 1
          /\ UNCHANGED tid
 
